@@ -11,4 +11,12 @@ META = {
             "technique": "runtime monitoring: differential against an independent reference encoder/decoder + determinism across writer reuse/pooling/dirty buffers + frozen golden corpus",
             "text": "Each program is run under six writer modes (fresh, reset, reset after a failed program, pooled, pooled on a dirty buffer): outputs must be byte-identical and equal to an independently written encoder's bytes; the independent decoder must read the same tree; the library must read reference-encoded bytes; a frozen corpus captured at the pinned commit must still be reproduced byte for byte.",
             "note": _codec_note + " The reference codec was written from the code at the pinned commit (format.md is stale on type codes)."},
+    "C10": {"engine": "valuegen+refcodec", "design_ref": "DESIGN.md §4 C10",
+            "technique": "runtime monitoring: exhaustive (16-bit domains and width pairs) and boundary/seeded inverse-function oracle on the scalar codecs",
+            "text": "decode(encode(v)) == v bit-for-bit with encoder size == appended bytes == decoder size, exhaustively for bool/byte/int16/uint16 and all 9 stored/read width pairs of each family on 16-bit values, on all 2^k±1/varint/zig-zag boundaries and ~10^5..10^6 seeded values for 32/64 bit, on every float exponent x mantissa pattern incl. ±0/±Inf/NaN/subnormals and MaxFloat32 neighbours for narrowing reads, on bin64/128/256 and on bytes/strings at every varint-class length.",
+            "note": _codec_note + " Narrowing float reads: exact values must come back exactly, out-of-range finite values must be errors, in-range inexact values may be rounded to nearest or rejected (reading recorded in DESIGN.md)."},
+    "C12": {"engine": "valuegen+refcodec", "design_ref": "DESIGN.md §4 C12",
+            "technique": "runtime monitoring: panic monitor + sticky-error monitor + parse-back oracle over bounded-exhaustive and seeded call sequences",
+            "text": "All call sequences up to length 4 (quick) / 5 (thorough) over a 16-op alphabet and 2*10^4..10^6 random sequences over 35 ops (stale handle copies, Any(empty), Merge/Copy, Len, Reset on dirty buffers, Free mid-program) on explicitly owned writers; monitors: no call panics, the first error is returned by every later error-returning call and by Build, a successful root Build parses completely, Free (twice, after errors) is safe, Reset yields a clean writer (reference program gives reference bytes).",
+            "note": _codec_note + " Only spec.NewWriter()/NewWriterBuffer() (explicit ownership), as the statement says. One known finding (calls on an ended MessageWriter variable) is listed in known_findings.json."},
 }
